@@ -84,23 +84,58 @@ func (c *Ctx) c09Find(rule, name string) *c09Fn {
 		c.Undecided(rule, name+":shape", fd.Pos(), "%s: no rune loop / no (quote rune, exec bool) parameters", name)
 		return nil
 	}
+	// Loop body = local definitions without calls (one of them reads the current rune:
+	// r := tree.expression[tree.charPos], possibly through a position local), then ONE dispatch:
+	// a tagless switch or the equivalent if / else-if chain (normalised to a switch here).
+	defs := localDefs(info, f.loop.Body)
+	isRuneRead := func(e ast.Expr) bool {
+		ix, ok := unparen(e).(*ast.IndexExpr)
+		return ok && isField(info, ix.X, c10ParserT, "expression") && isField(info, defs.resolve1(info, ix.Index), c10ParserT, "charPos")
+	}
+	pureDefine := func(lhs *ast.Ident, rhs ast.Expr) bool {
+		if f.sw != nil {
+			return false // definitions after the dispatch are not part of the recognised shape
+		}
+		if isRuneRead(rhs) {
+			f.rObj = info.ObjectOf(lhs)
+			return true
+		}
+		return len(calls(rhs, true)) == 0
+	}
 	for _, s := range f.loop.Body.List {
 		switch v := s.(type) {
 		case *ast.AssignStmt:
 			if v.Tok == token.DEFINE && len(v.Lhs) == 1 && len(v.Rhs) == 1 {
-				if ix, ok := unparen(v.Rhs[0]).(*ast.IndexExpr); ok && isField(info, ix.X, c10ParserT, "expression") && isField(info, ix.Index, c10ParserT, "charPos") {
-					f.rObj = info.ObjectOf(v.Lhs[0].(*ast.Ident))
+				if id, ok := v.Lhs[0].(*ast.Ident); ok && pureDefine(id, v.Rhs[0]) {
 					continue
 				}
 			}
 			c.Undecided(rule, name+":shape", s.Pos(), "%s: unrecognised statement in the rune loop: %s", name, c.src(s))
 			return nil
+		case *ast.DeclStmt:
+			okDecl := false
+			if gd, ok := v.Decl.(*ast.GenDecl); ok && gd.Tok == token.VAR && len(gd.Specs) == 1 {
+				if vs, ok := gd.Specs[0].(*ast.ValueSpec); ok && len(vs.Names) == 1 && len(vs.Values) == 1 {
+					okDecl = pureDefine(vs.Names[0], vs.Values[0])
+				}
+			}
+			if !okDecl {
+				c.Undecided(rule, name+":shape", s.Pos(), "%s: unrecognised statement in the rune loop: %s", name, c.src(s))
+				return nil
+			}
 		case *ast.SwitchStmt:
 			if v.Tag != nil || v.Init != nil || f.sw != nil {
 				c.Undecided(rule, name+":shape", s.Pos(), "%s: the rune loop is not one tagless switch", name)
 				return nil
 			}
 			f.sw = v
+		case *ast.IfStmt:
+			sw := c09IfChain(v)
+			if sw == nil || f.sw != nil {
+				c.Undecided(rule, name+":shape", s.Pos(), "%s: the rune loop is not one tagless switch / if-else chain", name)
+				return nil
+			}
+			f.sw = sw
 		default:
 			c.Undecided(rule, name+":shape", s.Pos(), "%s: unrecognised statement in the rune loop: %s", name, c.src(s))
 			return nil
@@ -146,6 +181,29 @@ func (c *Ctx) c09Find(rule, name string) *c09Fn {
 		}
 	}
 	return f
+}
+
+// c09IfChain renders `if a {A} else if b {B} else {C}` as the tagless switch
+// `switch { case a: A; case b: B; default: C }` (same clause selection); nil when an arm has an init statement.
+func c09IfChain(is *ast.IfStmt) *ast.SwitchStmt {
+	sw := &ast.SwitchStmt{Switch: is.Pos(), Body: &ast.BlockStmt{Lbrace: is.Body.Lbrace, Rbrace: is.End()}}
+	for cur := is; ; {
+		if cur.Init != nil {
+			return nil
+		}
+		sw.Body.List = append(sw.Body.List, &ast.CaseClause{Case: cur.Pos(), List: []ast.Expr{cur.Cond}, Colon: cur.Body.Lbrace, Body: cur.Body.List})
+		switch e := cur.Else.(type) {
+		case nil:
+			return sw
+		case *ast.IfStmt:
+			cur = e
+		case *ast.BlockStmt:
+			sw.Body.List = append(sw.Body.List, &ast.CaseClause{Case: e.Pos(), Colon: e.Lbrace, Body: e.List})
+			return sw
+		default:
+			return nil
+		}
+	}
 }
 
 func (f *c09Fn) runeOf(x ast.Expr, env c09Env) (rune, bool) {
@@ -740,8 +798,35 @@ func (c *Ctx) c09Callers() {
 				}
 				return nil, false
 			}
+			// single-definition locals (`quote := r`) stand for their definition; resolution stops at
+			// the switch variable of an enclosing constant arm, at a parameter and at anything that is not a plain copy
+			fdefs := localDefs(info, fd.Body)
+			resolveArg := func(e ast.Expr) ast.Expr {
+				e = unparen(e)
+				for i := 0; i < 4; i++ {
+					id, ok := e.(*ast.Ident)
+					if !ok {
+						return e
+					}
+					if _, inArm := armRunes(id); inArm || isParam(info, fd, id) {
+						return id
+					}
+					ds := fdefs[info.ObjectOf(id)]
+					if len(ds) != 1 || ds[0] == nil {
+						return id
+					}
+					next := unparen(ds[0])
+					if _, isId := next.(*ast.Ident); !isId {
+						if _, isConst := constInt(info, next); !isConst {
+							return id
+						}
+					}
+					e = next
+				}
+				return e
+			}
 			if isPS && len(call.Args) == 3 {
-				a, b := unparen(call.Args[0]), unparen(call.Args[1])
+				a, b := resolveArg(call.Args[0]), resolveArg(call.Args[1])
 				ka, okA := constInt(info, a)
 				kb, okB := constInt(info, b)
 				switch {
@@ -772,9 +857,18 @@ func (c *Ctx) c09Callers() {
 				}
 			}
 			if isInfix && len(call.Args) == 2 {
-				a := unparen(call.Args[0])
+				a := resolveArg(call.Args[0])
 				if k, ok := constInt(info, a); ok {
 					c.Check(k == '"' || k == ')', "R09d", key, call.Pos(), "%s calls parseStringInfix(%s): closing rune must be '\"' or ')'", fd.Name.Name, c.src(a))
+				} else if rs, inArm := c09ArmRunesOf(a, armRunes); inArm {
+					// the switch variable inside a constant case arm: its value is one of the arm's runes
+					good := true
+					for _, r := range rs {
+						if r != '"' && r != ')' {
+							good = false
+						}
+					}
+					c.Check(good, "R09d", key, call.Pos(), "%s calls parseStringInfix(%s) in the arm of %q: the closing rune must be '\"' or ')'", fd.Name.Name, c.src(a), string(rs))
 				} else if id, ok := a.(*ast.Ident); ok && isParam(info, fd, id) && id.Name != "" {
 					// must be the *closing* parameter: the last rune parameter
 					last := ""
@@ -794,6 +888,14 @@ func (c *Ctx) c09Callers() {
 		})
 	})
 	c.MinCount("R09d", "calls of parseString/parseStringInfix", n, 12)
+}
+
+func c09ArmRunesOf(a ast.Expr, armRunes func(*ast.Ident) ([]rune, bool)) ([]rune, bool) {
+	id, ok := a.(*ast.Ident)
+	if !ok {
+		return nil, false
+	}
+	return armRunes(id)
 }
 
 func (c *Ctx) c09Consumers() {
